@@ -54,6 +54,17 @@ claim("C17",
       "The string-prefix defect found by this check was repaired in /repo (fix: commit, see known_findings.json).",
       "DESIGN.md section 4 (C17)")
 
+claim("C03",
+      "The real SQLLineageHolder.of and role predicates run on histories built with the public holder API over tables with "
+      "SYMBOLIC names from the 3-table universe; per sequence of statement shapes z3 enumerates every equality pattern of the "
+      "names (every read-set / write / drop / rename instance) and the roles must equal the property's definition evaluated on "
+      "the same symbolic names; since the definition is a function of the statement set, order/repetition independence follows. "
+      "DROP and RENAME are step obligations as worded. Bounded: length <=2 exhaustive (read sets <=3), length 3 with read sets "
+      "<=2 (seeded sixth in quick, all in thorough), seeded length 4 in thorough. Witnesses are rendered to SQL and replayed "
+      "through LineageRunner on the unmodified library.",
+      TRUST + "; RENAME outside the property's precondition only has to make the old name disappear; multi-pair RENAME is C11's",
+      "DESIGN.md section 4 (C03)")
+
 ALL = ["C%02d" % i for i in range(1, 19)]
 
 
